@@ -2,10 +2,12 @@ package meta
 
 import (
 	"sync"
+	"unsafe"
 
 	"github.com/coregx/coregex/dfa/lazy"
 	"github.com/coregx/coregex/dfa/onepass"
 	"github.com/coregx/coregex/nfa"
+	"github.com/coregx/coregex/verifhook"
 )
 
 // SearchState holds per-search mutable state for thread-safe concurrent searches.
@@ -173,7 +175,11 @@ func newSearchStatePool(cfg searchStateConfig) *searchStatePool {
 	p := &searchStatePool{cfg: cfg}
 	p.pool = sync.Pool{
 		New: func() any {
-			return newSearchState(p.cfg)
+			st := newSearchState(p.cfg)
+			if verifhook.On {
+				verifhook.Emit("pool.new", int(uintptr(unsafe.Pointer(st))))
+			}
+			return st
 		},
 	}
 	return p
